@@ -242,7 +242,8 @@ def doBack (name : String) (i : Nat) : String :=
 
 def doVal (k : AtomKind) (bonds : List Bond) : String :=
   let a : Atom := ⟨k, bonds⟩
-  s!"T {listS k.targets} # S {a.subvalence} # H {a.suppressedHydrogens} # AR {k.isAromatic}"
+  let a0 := Atom.new k
+  s!"T {listS k.targets} # S {a.subvalence} # H {a.suppressedHydrogens} # AR {k.isAromatic} # AA {a.isAromatic} {a0.isAromatic} {a0.bonds.length} # BA {(bonds.filter Bond.isAromatic).length} # BD {(bonds.filter Bond.isDirectional).length}"
 
 def parseBondMulti (t : String) : Option (List Bond) :=
   if t == "-" then some [] else
